@@ -1,4 +1,5 @@
 import SafeC.Proofs.EVCode
+import SafeC.Proofs.OsEv
 /-!
 # C05, the "which arguments are violations" half in Lean: `*_meaning` theorems for functions whose result code is a
 function of the ARGUMENTS alone (memory contents play no part)
@@ -696,5 +697,63 @@ example : BosSmall (some 4) ∧ ((exec (strnset_s {} 100 5 65 1 (some 4))
       { data := fun _ => 66, mapped := fun _ => true, rd := fun _ => true, wr := fun _ => true }).toOption.map
         (fun x => (x.1, x.2.events))) = some (strnsetCode 100 5 65 1 (some 4), [.handler .str EOVERFLOW]) :=
   ⟨fun b h => by cases h; decide, by decide⟩
+
+/-! ## strnterminate_s (returns the length, 0 after a report), strerrorlen_s (no runtime-constraints) -/
+
+/-- src/extstr/strnterminate_s.c has no `@retval` list (it returns the string length); its `@pre` lines, top to bottom:
+`dest shall not be a null pointer`, `dmax shall not equal zero`, `dmax shall not be greater than RSIZE_MAX_STR`
+(object size unknown).  The violation reported, if any: -/
+def strnterminateReport (dest dmax : Nat) : Option Nat :=
+  if dest = 0 then some ESNULLP
+  else if dmax = 0 then some ESZEROL
+  else if dmax > RSIZE_MAX_STR then some ESLEMAX
+  else none
+
+theorem strnterminate_s_code (cfg : Cfg) (dest dmax : Nat) :
+    EV (strnterminate_s cfg dest dmax none) (fun r es =>
+      es = (strnterminateReport dest dmax).toList.map (Event.handler .str) ∧
+      (strnterminateReport dest dmax ≠ none → r = 0)) := by
+  have rep : ∀ c, EV (do handlerS c; pure 0 : Prog Nat) (fun r es => es = [Event.handler .str c] ∧ r = 0) := fun c =>
+    EV.bind (EV.handlerS c) (fun _ es he => by subst he; exact EV.pure _ ⟨by simp, rfl⟩)
+  by_cases h1 : dest = 0
+  · simp only [strnterminate_s, strnterminateReport, h1, if_true]
+    exact (rep _).conseq (fun r es ⟨a, b⟩ => ⟨by simpa using a, fun _ => b⟩)
+  by_cases h2 : dmax = 0
+  · simp only [strnterminate_s, strnterminateReport, h1, h2, if_true, if_false]
+    exact (rep _).conseq (fun r es ⟨a, b⟩ => ⟨by simpa using a, fun _ => b⟩)
+  by_cases h3 : dmax > RSIZE_MAX_STR
+  · simp only [strnterminate_s, strnterminateReport, h1, h2, h3, if_true, if_false]
+    exact (rep _).conseq (fun r es ⟨a, b⟩ => ⟨by simpa using a, fun _ => b⟩)
+  · simp only [strnterminate_s, strnterminateReport, h1, h2, h3, if_false]
+    refine EV.bindSilent (ntermLoop_silent _ _ _) (fun x _ => ?_)
+    exact EV.bindSilent (EV.storeP _ _) (fun _ _ => EV.pure _ ⟨by simp, fun h => absurd rfl h⟩)
+
+/-- strnterminate_s, object size unknown: WHICH violation is reported is `strnterminateReport` of the arguments alone
+(the cells decide only the length returned); a reporting call returns 0 -/
+theorem strnterminate_s_meaning (cfg : Cfg) (dest dmax : Nat) (st : St) (r : Nat) (st' : St)
+    (he : exec (strnterminate_s cfg dest dmax none) st = .ok (r, st')) :
+    st'.events = st.events ++ (strnterminateReport dest dmax).toList.map (Event.handler .str) ∧
+      (strnterminateReport dest dmax ≠ none → r = 0) := by
+  obtain ⟨es, h1, h2, h3⟩ := (strnterminate_s_code cfg dest dmax).sound st he
+  subst h2; exact ⟨h1, h3⟩
+
+/-- nothing is reported exactly when no `@pre` line is violated -/
+theorem strnterminateReport_none_iff (dest dmax : Nat) :
+    strnterminateReport dest dmax = none ↔ dest ≠ 0 ∧ dmax ≠ 0 ∧ dmax ≤ RSIZE_MAX_STR := by
+  unfold strnterminateReport
+  repeat' split
+  all_goals simp
+  all_goals omega
+
+example : ((exec (strnterminate_s {} 100 0 none)
+      { data := fun _ => 7, mapped := fun _ => true, rd := fun _ => true, wr := fun _ => true }).toOption.map
+        (fun x => (x.1, x.2.events))) = some (0, (strnterminateReport 100 0).toList.map (Event.handler .str)) := by decide
+
+/-- strerrorlen_s (src/str/strerror_s.c) documents no runtime-constraint: for every `errnum` and every message text no
+call reports anything -/
+theorem strerrorlen_s_meaning (errnum msg : Nat) (st : St) (r : Nat) (st' : St)
+    (he : exec (strerrorlen_s errnum msg) st = .ok (r, st')) : st'.events = st.events := by
+  obtain ⟨es, h1, h2, _⟩ := (SafeC.q_strerrorlen_s errnum msg).sound st he
+  subst h2; simpa using h1
 
 end SafeC.Props.C05Meaning
